@@ -2,7 +2,7 @@
 import ast
 
 from ..core import RuleResult, need
-from ..astutil import src, compare_parts, is_name, path_of, call_attr
+from ..astutil import src, compare_parts, is_name, path_of, call_attr, call_name
 from ..grammar import Ladder, grammar_text
 from ..tables import fold
 
@@ -181,5 +181,55 @@ def rule_e4(repo):
     return res
 
 
+def rule_e5(repo):
+    """D x. e, INT x:[a,b]. e, DIFF. e and LIM {x -> a}. e end in an open expression: as an operand without
+    brackets they swallow what follows.  Op.__str__ brackets an operand by comparing priorities (E2), so these
+    kinds must have a printing priority below every operator."""
+    res = RuleResult('C19.E5', 'constructs whose text ends in an open expression have a printing priority below every operator', floor=4)
+    lad = Ladder(grammar_text(repo.module(IPARSER)), 'expr')
+    tr = repo.cls(IPARSER, 'ExprTransformer')
+    prio, _l = _op_priority(repo)
+    # class -> kind tag
+    kind_of = {}
+    for c in repo.module(EXPR).classes.values():
+        init = c.methods.get('__init__')
+        if init is None:
+            continue
+        for n in ast.walk(init.node):
+            if isinstance(n, ast.Assign) and path_of(n.targets[0]) == 'self.ty' and isinstance(n.value, ast.Name):
+                kind_of[c.name] = n.value.id
+    # kind tag -> priority returned by Expr.priority
+    pr = repo.func(EXPR, 'Expr.priority')
+    kind_prio = {}
+    for n in ast.walk(pr.node):
+        if isinstance(n, ast.If):
+            cp = compare_parts(n.test)
+            if cp and path_of(cp[1]) == 'self.ty' and len(n.body) == 1 and isinstance(n.body[0], ast.Return) and isinstance(n.body[0].value, ast.Constant):
+                kinds = [e.id for e in cp[2].elts] if isinstance(cp[2], (ast.Tuple, ast.List)) else ([cp[2].id] if isinstance(cp[2], ast.Name) else [])
+                for k in kinds:
+                    kind_prio[k] = n.body[0].value.value
+    lowest = min(list(prio.values()) + [80])
+    seen = set()
+    for p in lad.productions:
+        if not (p.symbols and not p.symbols[-1][1] and p.symbols[-1][0] == 'expr' and p.symbols[0][1] and
+                (lad.token(p.symbols[0][0]) or '').isupper() and p.alias in tr.methods):
+            continue
+        for r in ast.walk(tr.methods[p.alias].node):
+            if isinstance(r, ast.Return) and isinstance(r.value, ast.Call) and (call_name(r.value) or '').startswith('expr.'):
+                cls = call_name(r.value).split('.')[-1]
+                if cls in seen:
+                    continue
+                seen.add(cls)
+                k = kind_of.get(cls)
+                q = kind_prio.get(k)
+                ok = q is not None and q < lowest
+                res.add('%s :: Expr.priority :: open-construct(%s)' % (EXPR, cls), ok,
+                        'priority %s, below every operator (%d)' % (q, lowest) if ok else
+                        '`%s ...` ends in an open expression but has printing priority %s (lowest operator: %d): as an operand it is not bracketed and '
+                        'what follows is read into its body ((INT x:[0,1]. x) + 1 would print as INT x:[0,1]. x + 1)' % (lad.token(p.symbols[0][0]), q, lowest),
+                        pr.loc)
+    return res
+
+
 def rules(repo):
-    return [rule_e1(repo), rule_e2(repo), rule_e3(repo), rule_e4(repo)]
+    return [rule_e1(repo), rule_e2(repo), rule_e3(repo), rule_e4(repo), rule_e5(repo)]
